@@ -49,10 +49,18 @@ const PATTERNS: &[&str] = &[
     r"\G(?:(\w+)|,?)",
     r"\G\d*",
     r"(?:\G|;)(\w\w)?",
+    // lazy loops over bodies that can match the empty string (the rarest loop instruction): a
+    // clone must run them exactly like the original
+    r"(\w\w)\1*?(?!\d)",
+    r"(a)\1*?b?",
+    r"(?:(?=a)a|b?)+?c",
+    r"(?:\b|x)*?y",
 ];
 
 const TEXTS: &[&str] = &[
     "",
+    "nananana1",
+    "aab aaa xxy bac",
     "abc",
     "hello world hello",
     "HeLLo World",
@@ -290,6 +298,29 @@ fn main() {
         }
     }
     let (np, nt) = (regexes.len(), texts.len());
+    // a clone is the same program (VM-compiled patterns: instruction listing of original and clone)
+    let mut clone_diffs: Vec<String> = vec![];
+    let mut clone_programs_compared = 0u64;
+    if mode != "miri" {
+        struct Dbg<'a>(&'a Regex);
+        impl std::fmt::Display for Dbg<'_> {
+            fn fmt(&self, f: &mut std::fmt::Formatter<'_>) -> std::fmt::Result {
+                self.0.debug_print(f)
+            }
+        }
+        for (i, re) in regexes.iter().enumerate() {
+            let a = format!("{}", Dbg(re));
+            if a.starts_with("wrapped") {
+                continue;
+            }
+            let b = format!("{}", Dbg(&re.clone()));
+            clone_programs_compared += 1;
+            if a != b {
+                let (la, lb) = a.lines().zip(b.lines()).find(|(x, y)| x != y).unwrap_or(("<length differs>", ""));
+                clone_diffs.push(format!("CLONE: the clone of {:?} is a different program: original {:?}, clone {:?}", pats[i], la, lb));
+            }
+        }
+    }
     // single-threaded table
     let mut table = Vec::with_capacity(np * nt * APIS);
     for re in &regexes {
@@ -409,7 +440,9 @@ fn main() {
             cold_rounds += 1;
         }
     }
+    total.mismatches.extend(clone_diffs);
     let res = serde_json::json!({
+        "clone_programs_compared": clone_programs_compared,
         "mode": mode, "seed": seed, "calls": total.calls, "overlapped_calls": total.overlapped,
         "distinct_triples_compared_under_overlap": total.triples_overlapped.len(),
         "peak_threads_inside_one_regex": peak.load(Ordering::Relaxed),
